@@ -484,6 +484,24 @@ def _formatter(spec):
             line = f"c09 fmtlang {'none' if lv is None else tok(lv)} {FN_CODE[spec['fn']]} {cdtok}"
             fn = 0 if f.entity_substitution is None else FN_CODE.get(getattr(f.entity_substitution, "__name__", ""), 99)
             return arg, f, conf, fn, line
+        if cls.startswith("Sub-"):
+            # a user SUBCLASS that overrides the documented class-level table HTML_DEFAULTS (formatter.py:50-52)
+            base = {"Sub-HTMLFormatter": HTMLFormatter, "Sub-XMLFormatter": XMLFormatter, "Sub-Formatter": Formatter}[cls]
+            sub = type("UserFormatter", (base,), {"HTML_DEFAULTS": dict(cdata_containing_tags=set(spec["class_defaults"]))})
+            if spec.get("level") == 2:
+                sub = type("UserFormatter2", (sub,), {})  # inherited once more
+            if base is Formatter:
+                f = sub(Formatter.HTML, es, cdata_containing_tags=cd)
+            else:
+                f = sub(entity_substitution=es, cdata_containing_tags=cd)
+            arg = f
+            xml = base is XMLFormatter
+            conf = set(spec["cdata"]) if spec["cdata"] is not None else (set() if xml else set(spec["class_defaults"]))
+            cdtok = "none" if spec["cdata"] is None else (";".join(tok(x) for x in spec["cdata"]) or "-")
+            dtok = ";".join(tok(x) for x in sorted(spec["class_defaults"])) or "-"
+            line = f"c09 fmtsub {'x' if xml else 'h'} {FN_CODE[spec['fn']]} {dtok} {cdtok}"
+            fn = 0 if f.entity_substitution is None else FN_CODE.get(getattr(f.entity_substitution, "__name__", ""), 99)
+            return arg, f, conf, fn, line
         if cls == "HTMLFormatter":
             f = HTMLFormatter(entity_substitution=es, cdata_containing_tags=cd)
         elif cls == "XMLFormatter":
@@ -641,6 +659,15 @@ def scenarios(ctx):
                     spec = dict(kind="custom", cls="Formatter-lang", lang=lv, form=form, fn=fn, cdata=cd, ctype=ctype)
                     for parent in ("p", "script", "style"):
                         yield "custom-language", [dict(parent=parent, s=tok(s), formatter=spec)]
+    # user subclasses that set the defaults at CLASS level
+    for s in texts[:6]:
+        for cls in ("Sub-HTMLFormatter", "Sub-Formatter", "Sub-XMLFormatter"):
+            for cdef in ([], ["script"], ["style", "x-custom"], ["pre", "script", "style"]):
+                for fn in ("substitute_xml", "substitute_html", "substitute_html5"):
+                    for cd, level in ((None, 1), (None, 2), (["script"], 1)):
+                        spec = dict(kind="custom", cls=cls, class_defaults=cdef, level=level, fn=fn, cdata=cd, ctype="set")
+                        for parent in ("p", "script", "style", "x-custom", "pre"):
+                            yield "custom-subclass", [dict(parent=parent, s=tok(s), formatter=spec)]
     # histories: every text is unique to its history, so nothing rendered earlier in this process can interfere
     k = 0
     for base in texts[:ctx.n(16, 60)]:
@@ -697,8 +724,75 @@ def attr_form_checks(ctx, drv):
                           stream="attr-forms-correspondence", no_failing_input=True)
 
 
+def meta_charset_checks(ctx, drv):
+    """a parsed <meta> whose content/charset value is the builder's charset stand-in (AttributeValueWithCharsetSubstitution)
+    AND holds markup-significant text: rendered with and without an eventual_encoding, the (rewritten) value is an
+    attribute value like any other"""
+    from bs4 import BeautifulSoup
+    from bs4.element import AttributeValueWithCharsetSubstitution
+    E = _E()
+    rng = ctx.rng("meta")
+    extras = ["AT&T <x> 'q'", "a<b", "&amp; &lt;", "x>y \"z\"", "&copy; 2024", "note=&Lt-", "é≧̸", "plain"] + \
+        [s for s in gen_random(rng, 60) if s.strip() and ";" not in s and not any(0xD800 <= ord(c) <= 0xDFFF for c in s)][:ctx.n(12, 60)]
+    lines, impl, cases = [], [], []
+    for extra in extras:
+        for shape in ("content-charset-first", "content-charset-last", "charset-attr", "content-no-charset"):
+            if shape == "content-charset-first":
+                attrs = {"http-equiv": "Content-Type", "content": "text/html; charset=x-sjis; note=" + extra}
+                key = "content"
+            elif shape == "content-charset-last":
+                attrs = {"http-equiv": "content-type", "content": "text/html; note=" + extra + "; charset=ISO-8859-2"}
+                key = "content"
+            elif shape == "charset-attr":
+                attrs = {"charset": "x-sjis", "title": extra}
+                key = "charset"
+            else:
+                attrs = {"http-equiv": "Content-Type", "content": "text/html; note=" + extra}
+                key = "content"
+            src = "<meta " + " ".join(k + "=" + E.quoted_attribute_value(E.substitute_xml(v)) for k, v in attrs.items()) + "/>"
+            soup = BeautifulSoup(src, "html.parser")
+            meta = soup.find("meta")
+            if meta is None or any(meta.get(k) != v for k, v in attrs.items()):
+                continue
+            val = meta[key]
+            standin = isinstance(val, AttributeValueWithCharsetSubstitution)
+            for name in ("minimal", "html", "html5", None):
+                for enc in ("utf-8", "koi8-r", None, "default"):
+                    kw = {} if enc == "default" else {"eventual_encoding": enc}
+                    rendered = meta.decode(formatter=name, **kw)
+                    eff = "utf-8" if enc == "default" else enc
+                    want = val.substitute_encoding(eff) if (standin and eff is not None) else str(val)
+                    case = {"op": "meta", "source": tok(src), "attribute": key, "formatter": name, "eventual_encoding": enc, "shape": shape}
+                    ctx.case(("meta", src, name, enc))
+                    ctx.count("stream:meta-charset")
+                    ctx.count("meta:" + ("stand-in" if standin else "plain") + ":" + ("rewritten" if want != str(val) else "as-is"))
+                    back = BeautifulSoup(rendered, "html.parser").find("meta")
+                    got = None if back is None else back.get(key)
+                    if name is not None:
+                        m = re.search(r"(?:^|\s)" + key + r"=(\"[^\"]*\"|'[^']*')", rendered)
+                        q = m.group(1) if m else ""
+                        if "<" in q[1:-1] or ">" in q[1:-1]:
+                            ctx.violation(f"raw angle bracket inside the quoted {key} value of a <meta> rendered with formatter {name!r}",
+                                          case=case | {"rendered": tok(rendered)}, observed=tok(q), stream="meta-charset")
+                        if got != want:
+                            ctx.violation(f"the {key} value of a <meta> (charset rewritten for the output encoding) rendered with formatter {name!r} is read back differently",
+                                          case=case | {"rendered": tok(rendered)}, expected=tok(want), observed=show(got), stream="meta-charset")
+                    # the model: key="value" of the (rewritten) text through the named formatter
+                    mm = re.search(r"(?:^|\s)(" + key + r"=(?:\"[^\"]*\"|'[^']*'))", rendered)
+                    lines.append(f"c09 fmtattr h {0 if name is None else 1} {tok(name or '')} {tok(key)} {'charset' if standin and eff is not None else 'str'} {tok(want)}")
+                    impl.append(tok(mm.group(1)) if mm else "not-found:" + tok(rendered))
+                    cases.append(case)
+    rep = drv.ask(lines)
+    for l, a, b, c in zip(lines, impl, rep, cases):
+        if a != b:
+            ctx.corr_disagreements += 1
+            ctx.violation("model and implementation disagree (<meta> attribute rendering)", case=c | {"line": l}, observed=a, model=b,
+                          stream="meta-charset-correspondence", no_failing_input=True)
+
+
 def context_checks(ctx, drv):
     attr_form_checks(ctx, drv)
+    meta_charset_checks(ctx, drv)
     lines, impl, where = [], [], []
     for stream, steps in scenarios(ctx):
         fails, corr = run_scenario(steps)
@@ -995,6 +1089,22 @@ def replay(path):
             print("  PROPERTY FAILS:", f["what"], "| expected", f.get("expected") and ascii(uncps(f["expected"])) if f.get("expected") and "/" not in f["expected"] else f.get("expected"),
                   "| observed", f.get("observed"), "| known-finding class:", f.get("kf"))
         return 1 if fails else 0
+    if c.get("op") == "meta":
+        from bs4 import BeautifulSoup
+        src = uncps(c["source"])
+        meta = BeautifulSoup(src, "html.parser").find("meta")
+        kw = {} if c["eventual_encoding"] == "default" else {"eventual_encoding": c["eventual_encoding"]}
+        rendered = meta.decode(formatter=c["formatter"], **kw)
+        back = BeautifulSoup(rendered, "html.parser").find("meta")
+        val = meta[c["attribute"]]
+        eff = "utf-8" if c["eventual_encoding"] == "default" else c["eventual_encoding"]
+        want = val.substitute_encoding(eff) if (hasattr(val, "substitute_encoding") and eff is not None) else str(val)
+        got = None if back is None else back.get(c["attribute"])
+        print(f"source {src!r}\nrendered with formatter={c['formatter']!r}, eventual_encoding={c['eventual_encoding']!r}: {rendered!r}")
+        print(f"{c['attribute']} read back {got!r}; the property demands {want!r}")
+        if re.search(r"=(\"[^\"]*[<>][^\"]*\"|'[^']*[<>][^']*')", rendered):
+            print("PROPERTY FAILS: raw angle bracket inside a quoted attribute value")
+        return 0 if got == want and "<" not in rendered[1:-2].replace("<meta", "") else 1
     if c.get("op") == "attr-form":
         from bs4 import BeautifulSoup
         v = c["value"]
